@@ -366,51 +366,80 @@ func c09R4(c *Ctx) {
 		c.bad(rule, "report", c.pos(fn.Pos()), "checkForDeadlocks no longer raises ErrNoMorePossibleSteps")
 		return
 	}
-	// counters fields compared with 0
-	cmpField := func(name string) func(ssa.Value) bool {
-		return func(cond ssa.Value) bool {
-			b, ok := cond.(*ssa.BinOp)
-			if !ok || b.Op.String() != "==" {
-				return false
-			}
-			n, isC := constInt(b.Y)
-			if !isC || n != 0 {
-				return false
-			}
-			f := firstFieldRead(b.X)
-			if f != nil && f.Name() == name {
+	// the counter field `name` is known to be 0 where the report is built: true edge of ==0 / <=0 / <1, false edge of !=0 / >0 / >=1
+	isCounter := func(v ssa.Value, name string) bool {
+		if f := firstFieldRead(v); f != nil && f.Name() == name {
+			return true
+		}
+		if fi, ok := v.(*ssa.Field); ok {
+			if fv := fieldValVar(fi); fv != nil && fv.Name() == name {
 				return true
 			}
-			// field of a struct value (Field instruction)
-			if fi, ok := b.X.(*ssa.Field); ok {
-				if fv := fieldValVar(fi); fv != nil && fv.Name() == name {
-					return true
-				}
-			}
-			return false
 		}
+		return false
+	}
+	zeroOn := func(name string) bool {
+		for _, edge := range []bool{true, false} {
+			edge := edge
+			if guardedBy(mk, edge, func(cond ssa.Value) bool {
+				b, ok := cond.(*ssa.BinOp)
+				if !ok || !isCounter(b.X, name) {
+					return false
+				}
+				n, isC := constInt(b.Y)
+				if !isC {
+					return false
+				}
+				op := b.Op.String()
+				if edge {
+					return (op == "==" && n == 0) || (op == "<=" && n == 0) || (op == "<" && n == 1)
+				}
+				return (op == "!=" && n == 0) || (op == ">" && n == 0) || (op == ">=" && n == 1)
+			}) != nil {
+				return true
+			}
+		}
+		return false
+	}
+	retriesExhausted := func() bool {
+		isRetries := func(v ssa.Value) bool {
+			return derivesFrom(v, func(x ssa.Value) bool { _, ok := x.(*ssa.Parameter); return ok })
+		}
+		for _, edge := range []bool{true, false} {
+			edge := edge
+			if guardedBy(mk, edge, func(cond ssa.Value) bool {
+				b, ok := cond.(*ssa.BinOp)
+				if !ok || !isRetries(b.X) {
+					return false
+				}
+				n, isC := constInt(b.Y)
+				if !isC {
+					return false
+				}
+				op := b.Op.String()
+				if edge {
+					return (op == "<=" && n == 0) || (op == "<" && n == 1) || (op == "==" && n == 0)
+				}
+				return (op == ">" && n == 0) || (op == ">=" && n == 1)
+			}) != nil {
+				return true
+			}
+		}
+		return false
 	}
 	doneF := c.fLoop("outputDone")
 	conds := []struct {
 		name string
 		ok   bool
 	}{
-		{"starting == 0", guardedBy(mk, true, cmpField("starting")) != nil},
-		{"running == 0", guardedBy(mk, true, cmpField("running")) != nil},
+		{"starting == 0", zeroOn("starting")},
+		{"running == 0", zeroOn("running")},
 		{"!hasReadyNodes", guardedBy(mk, false, func(cond ssa.Value) bool {
 			call, ok := cond.(*ssa.Call)
 			return ok && call.Common().IsInvoke() && call.Common().Method.Name() == "HasReadyNodes"
 		}) != nil},
 		{"!outputDone", guardedBy(mk, false, func(cond ssa.Value) bool { return loadedField(cond) == doneF }) != nil},
-		{"retries <= 0", guardedBy(mk, true, func(cond ssa.Value) bool {
-			b, ok := cond.(*ssa.BinOp)
-			if !ok || b.Op.String() != "<=" {
-				return false
-			}
-			isP := derivesFrom(b.X, func(v ssa.Value) bool { _, ok := v.(*ssa.Parameter); return ok })
-			n, isC := constInt(b.Y)
-			return isP && isC && n == 0
-		}) != nil},
+		{"retries <= 0", retriesExhausted()},
 	}
 	for _, cd := range conds {
 		c.verdict(cd.ok, rule, "condition:"+strings.ReplaceAll(cd.name, " ", ""), c.instrPos(mk), "the report requires "+cd.name, "the no-more-steps report is not guarded by "+cd.name+": a step that is merely starting/running (or a run with ready nodes / a produced output) would be declared dead")
